@@ -200,11 +200,15 @@ def cases(draw):
         for t in v["terms"]:
             if t["cls"] == "Function" and draw(st.booleans()):
                 k1 = draw(st.floats(-10, 10))
-                k2 = draw(st.one_of(st.floats(-10, 10), st.sampled_from([math.inf, 0.0, 1e-300])))
+                k2 = draw(st.one_of(st.floats(-10, 10), st.sampled_from([math.inf, 0.0, 1e-300, -0.0, -0.0])))
                 extra = draw(st.lists(st.floats(-5, 5), min_size=0, max_size=6))  # up to 8 substitution variables
-                t["formula"] = f"k1 * {draw(st.sampled_from(inames))} + k2" + "".join(
+                tail = " + k2" if draw(st.booleans()) else " + 1 / k2"  # 1 / -0.0 = -inf: the sign of a zero matters
+                t["formula"] = f"k1 * {draw(st.sampled_from(inames))}" + tail + "".join(
                     f" + e{i + 1}" for i in range(len(extra)))
                 t["vars"] = {"k1": k1, "k2": k2, **{f"e{i + 1}": v for i, v in enumerate(extra)}}
+    for v in spec["outputs"]:
+        if draw(st.integers(0, 9)) == 0:
+            v["default"] = -0.0  # exactly negative zero
     rows = [draw(gen.input_row(spec)) for _ in range(draw(st.integers(1, 3)))]
     form = draw(st.sampled_from(["repr", "repr", "plain", "encapsulated", "encapsulated"]))
     return {"spec": spec, "d": d, "alias": draw(st.sampled_from(ALIASES)), "form": form,
